@@ -133,8 +133,8 @@ func init() {
 			return 64
 		},
 		Floors: map[string]int64{
-			"end:computation": 300, "end:memory": 20, "end:call-depth": 100, "end:user-other": 10,
-			"family:loop": 60, "family:recursion": 60, "family:nesting": 60, "family:builtin": 150, "family:callback": 20,
+			"end:computation": 300, "end:memory": 20, "end:call-depth": 50, "end:user-other": 10,
+			"family:loop": 25, "family:recursion": 25, "family:nesting": 20, "family:builtin": 50, "family:callback": 8,
 			"deep_recursion_over_checked": 60, "deep_recursion_under_ok": 20, "templates_covered": int64(len(templates30)),
 			"L:200": 100, "L:5000": 100, "L:100000": 60, "D:20": 60, "D:200": 60, "D:default": 40,
 		},
@@ -175,10 +175,11 @@ func runC30(c *core.Ctx) {
 		}
 		jobs = append(jobs, job{p, pick(r, limitsL), pick(r, limitsM), D})
 	}
-	if c.Case%32 == 5 {
-		// a configured call-depth limit above the default: error unwinding through a 4000-deep call stack
+	if c.Case%64 == 5 {
+		// a configured call-depth limit above the default: error unwinding through a 5000-deep call stack
+		// (on the pinned tree the interpreter needs 60-120 s of CPU for it; once per 64 cases)
 		jobs = append(jobs, job{&prog30{feature: "self-recursion", family: "recursion",
-			src: "access(all) fun f(_ n: Int): Int { return f(n + 1) + 1 }\n" + script("  f(0)")}, 100000, 16 << 20, 4000})
+			src: "access(all) fun f(_ n: Int): Int { return f(n + 1) + 1 }\n" + script("  f(0)")}, 100000, 16 << 20, 5000})
 	}
 	// guarded recursion: over-deep (3*D) and under-deep (D/2)
 	for j := 0; j < 2; j++ {
